@@ -104,12 +104,37 @@ def _nest(depth, missing=None, slot="o"):
 def hostile(draw):
     kind = draw(st.sampled_from(["huge_tables", "huge_frame_len", "huge_row_len", "deep_nesting", "odd_options",
                                  "many_empty_frames", "huge_ids", "bad_utf8", "overlong_varint", "huge_string_len",
-                                 "many_rows", "metadata_flood", "numeric_lexical"]))
+                                 "many_rows", "metadata_flood", "numeric_lexical", "backtracking_strings"]))
     big = draw(st.sampled_from([4097, 65536, 2 ** 20, 2 ** 24, 2 ** 26, 2 ** 27, 2 ** 28, 2 ** 31 - 1, 2 ** 31, 2 ** 32 - 1]))
     opts = {"physical_type": draw(st.sampled_from([1, 2, 3])), "logical_type": 0, "max_name_table_size": 16,
             "max_prefix_table_size": 8, "max_datatype_table_size": 8, "version": 1}
     stmt = {"s": ("iri", 1, 1), "p": ("iri", 0, 0), "o": ("lit", "x", None)}
     base_rows = [("options", opts), ("prefix", 0, "http://p/"), ("name", 0, "a"), ("name", 0, "b"), ("triple", stmt)]
+    if kind == "backtracking_strings":
+        # long runs of "nice" characters ending in one that does not fit: the shape that makes a careless validation
+        # regex backtrack exponentially (labels, names, language tags, lexical forms)
+        run = draw(st.sampled_from(["a" * 30, "N" + "0123456789abcdef" * 2, "ab" * 25, "x-" * 20 + "x", "a.b" * 15, "z" * 64]))
+        bad = run + draw(st.sampled_from(["&", "!", " ", "\u00e9\u0301", "/", "-", "."]))
+        where = draw(st.sampled_from(["bnode", "name", "prefix", "lang", "lex", "graph_bnode", "datatype"]))
+        o = ("lit", "v", None)
+        rows = [("options", {**opts, "physical_type": 2})]
+        s_ = ("bnode", bad) if where == "bnode" else ("bnode", "s")
+        g_ = ("bnode", bad) if where == "graph_bnode" else ("default",)
+        if where == "name":
+            rows += [("name", 0, bad)]
+            s_ = ("iri", 0, 1)
+        elif where == "prefix":
+            rows += [("prefix", 0, bad), ("name", 0, "n")]
+            s_ = ("iri", 1, 1)
+        elif where == "lang":
+            o = ("lit", "v", ("lang", bad))
+        elif where == "lex":
+            o = ("lit", bad, None)
+        elif where == "datatype":
+            rows += [("datatype", 0, bad)]
+            o = ("lit", "v", ("dt", 1))
+        rows.append(("quad", {"s": s_, "p": ("bnode", "p"), "o": o, "g": g_}))
+        return wire.enc_stream([{"rows": rows, "metadata": []}], True)
     if kind == "numeric_lexical":
         # short lexical forms that *declare* huge magnitudes: an adapter that evaluates or re-renders them balloons
         xsd = "http://www.w3.org/2001/XMLSchema#"
